@@ -30,6 +30,7 @@ def run(ctx):
     E.rule_header_fully_stamped(res, "C01-R3", m)
     E.rule_fit_decided_on_fresh_frame(res, "C01-R5", m)
     E.rule_flag_table(res, "C01-R5", m)
+    E.rule_writes_inside_frame(res, "C01-R5", m)  # chunk = min(free - 16, remaining) at full width: a packet that fits is not cut in pieces
     res.floor("C01-R5", 6)
     dm = D.DecodeModel(fb)
     D.rule_accept_guard(res, "C01-R4", dm)
